@@ -332,6 +332,34 @@ fn slow_storage(run: &Run, tier: Tier) {
     if stall.done.load(std::sync::atomic::Ordering::SeqCst) {
         run.count("replays_with_a_stalled_storage_operation", 1);
     }
+    // and once on a runtime whose clock is virtual (tokio's paused time advances by itself while
+    // everything waits): the first block write takes two hours of tokio time and no real time.
+    // Timers inside the program see the two hours.
+    {
+        let c = sc.join("slow-virtual");
+        cs::create_archive(&c);
+        let stall = std::sync::Arc::new(Stall { millis: 2 * 3600 * 1000, done: std::sync::atomic::AtomicBool::new(false) });
+        let t = conserve::transport::Transport::local(&c).with_interceptor(1, stall.clone() as std::sync::Arc<dyn conserve::transport::hooked::Interceptor>);
+        let src2 = src.clone();
+        let res = crate::report::guard(move || {
+            let rt = tokio::runtime::Builder::new_current_thread().enable_all().start_paused(true).build().expect("runtime");
+            rt.block_on(async move {
+                let archive = conserve::Archive::open(t).await.map_err(cs::errstr)?;
+                conserve::backup(&archive, &src2, &cs::backup_opts(o, &[], None), conserve::monitor::test::TestMonitor::arc()).await.map_err(cs::errstr)
+            })
+        });
+        run.count("archive_pairs_compared", 1);
+        if stall.done.load(std::sync::atomic::Ordering::SeqCst) {
+            run.count("replays_with_a_storage_operation_taking_hours_of_virtual_time", 1);
+        }
+        if let Some(d) = first_difference(&normalised(&a), &normalised(&c)) {
+            run.violation(
+                "replay-differs:duration-of-storage-operations",
+                format!("one backup on ordinary storage, one whose first block write took two hours on the program's (virtual) clock: {d}; the slow backup returned {:?}", res.map(|r| r.map(|s| (s.written_blocks, s.errors)))),
+                json!({"slow_storage": true}),
+            );
+        }
+    }
     if let Some(d) = first_difference(&normalised(&a), &normalised(&b)) {
         run.violation(
             "replay-differs:duration-of-storage-operations",
@@ -361,9 +389,9 @@ pub fn run(tier: Tier, replay: Option<Value>) -> i32 {
         run.par_cases(tier.pick(100, 4000), super::threads().min(8), |c| one_history(&run, c));
     }
     run.finish(
-        "histories over {tree mutations, backup(random options), backup killed before its n-th write, delete of a random subset (sometimes with the removal of one particular garbage block failing, a fault addressed by path), gc} are executed in lock-step from the same on-disk source states into a first archive (current-thread tokio runtime) and into one (thorough: two) replica archives on multi-thread runtimes with 2 or 8 workers and random yields/sleeps before every storage operation; after every step the complete directory trees must be byte-identical, BANDHEAD/BANDTAIL compared as JSON without start_time/end_time. Within one process every HashMap instance already gets its own random seed, so hash-order dependence shows up without a second process. One history (backup, change, backup, gc) on a 10 040-file tree with one entry per hunk is replayed the same way. One tree with a file stamped 2 s ahead of the clock is backed up twice before and twice after the clock passes that mtime (the wall clock is not an input). One tree is backed up on ordinary storage and on storage whose first block write stalls for 1.2 s (quick) / 31 s (thorough): how long storage takes is not an input either. Distinct = history text with >= 3 archive operations.",
+        "histories over {tree mutations, backup(random options), backup killed before its n-th write, delete of a random subset (sometimes with the removal of one particular garbage block failing, a fault addressed by path), gc} are executed in lock-step from the same on-disk source states into a first archive (current-thread tokio runtime) and into one (thorough: two) replica archives on multi-thread runtimes with 2 or 8 workers and random yields/sleeps before every storage operation; after every step the complete directory trees must be byte-identical, BANDHEAD/BANDTAIL compared as JSON without start_time/end_time. Within one process every HashMap instance already gets its own random seed, so hash-order dependence shows up without a second process. One history (backup, change, backup, gc) on a 10 040-file tree with one entry per hunk is replayed the same way. One tree with a file stamped 2 s ahead of the clock is backed up twice before and twice after the clock passes that mtime (the wall clock is not an input). One tree is backed up on ordinary storage and on storage whose first block write stalls for 1.2 s (quick) / 31 s (thorough): how long storage takes is not an input either; a third copy is made on a runtime with a virtual clock, where that write takes two hours of the program's timer time. Distinct = history text with >= 3 archive operations.",
         &["timestamps in heads and tails are the only allowed difference", "a separate-process replay was not added (per-instance hash seeds make it redundant)"],
         None,
-        &[("archive_pairs_compared", 100), ("killed_backups_replayed", 3), ("histories_completed", 10), ("many_hunks_replays_compared", 1), ("replays_straddling_a_file_mtime", 1), ("replays_with_a_stalled_storage_operation", 1)],
+        &[("archive_pairs_compared", 100), ("killed_backups_replayed", 3), ("histories_completed", 10), ("many_hunks_replays_compared", 1), ("replays_straddling_a_file_mtime", 1), ("replays_with_a_stalled_storage_operation", 1), ("replays_with_a_storage_operation_taking_hours_of_virtual_time", 1)],
     )
 }
